@@ -61,12 +61,15 @@ func genCase(t *rapid.T) Case {
 		}
 		return 0
 	}
+	intShrink := !frac && rapid.Bool().Draw(t, "intshrink")
 	for i := 0; i < n; i++ {
 		c.Items = append(c.Items, It{T: 0, W: float64(rapid.IntRange(1, 12).Draw(t, "bw")) + fr()})
 		if rapid.IntRange(0, 4).Draw(t, "hy") == 0 {
 			// in-word penalty; its width never exceeds the following box (monotone minimum line length)
 			bw2 := rapid.IntRange(1, 8).Draw(t, "bw2")
-			c.Items = append(c.Items, It{T: 2, W: float64(rapid.IntRange(0, 1).Draw(t, "pw")), P: float64(rapid.SampledFrom([]int{0, 50, 500, -20, 1000}).Draw(t, "pp")), F: rapid.Bool().Draw(t, "fl")})
+			// (a penalty as wide as the following box gives two breaks with lines of equal length: seed C17-7)
+			pw := []int{0, 1, bw2, bw2}[rapid.IntRange(0, 3).Draw(t, "pw")]
+			c.Items = append(c.Items, It{T: 2, W: float64(pw), P: float64(rapid.SampledFrom([]int{0, 50, 500, -20, 1000}).Draw(t, "pp")), F: rapid.Bool().Draw(t, "fl")})
 			c.Items = append(c.Items, It{T: 0, W: float64(bw2) + fr()})
 		}
 		if i < n-1 {
@@ -87,7 +90,12 @@ func genCase(t *rapid.T) Case {
 				c.Items = append(c.Items, It{T: 1, W: 0, Y: s}, It{T: 2, P: 0}, It{T: 1, W: w, Y: -s})
 			default:
 				w := float64(rapid.IntRange(1, 4).Draw(t, "gw"))
-				c.Items = append(c.Items, It{T: 1, W: w, Y: w * float64(rapid.IntRange(0, 3).Draw(t, "gy")) / 2, Z: w * float64(rapid.IntRange(0, 3).Draw(t, "gz")) / 3})
+				gl := It{T: 1, W: w, Y: w * float64(rapid.IntRange(0, 3).Draw(t, "gy")) / 2, Z: w * float64(rapid.IntRange(0, 3).Draw(t, "gz")) / 3}
+				if intShrink {
+					// whole-number shrink: with whole-number widths lines at exactly ratio -1 become common
+					gl.Z = math.Min(w, float64(rapid.IntRange(0, 2).Draw(t, "gzi")))
+				}
+				c.Items = append(c.Items, gl)
 			}
 		}
 	}
@@ -102,6 +110,21 @@ func genCase(t *rapid.T) Case {
 type lbOracle struct {
 	items []It
 	width float64
+	// exact: every width, stretch and shrink and the line width is a multiple of 1/4 below 2^20, so that all running sums
+	// and their differences are exact in float64 in any order and a ratio on a threshold is on it in every correct
+	// implementation (division is correctly rounded): such cases are decided in full (seed C17-7 lives at ratio == -1)
+	exact bool
+}
+
+func quarter(v float64) bool { return math.Abs(v) < 1<<20 && v*4 == math.Trunc(v*4) }
+
+func allQuarter(items []It, width float64) bool {
+	for _, it := range items {
+		if !quarter(it.W) || !quarter(it.Y) || !quarter(it.Z) {
+			return false
+		}
+	}
+	return quarter(width)
 }
 
 // legal breakpoint as in the statement: a finite penalty, or glue directly after a box and not directly before a penalty
@@ -237,11 +260,11 @@ func (o *lbOracle) brute(tol float64) bruteResult {
 				continue
 			}
 			r := o.ratio(a, b)
-			if L, _, _ := o.line(a, b); math.Abs(L-o.width) < 1e-9*(1+o.width) {
+			if L, _, _ := o.line(a, b); !o.exact && math.Abs(L-o.width) < 1e-9*(1+o.width) {
 				res.ambiguous = true // exact fit: rounding in the running sums decides between ratio 0 and over/underfull
 			}
 			for _, thr := range []float64{-1, -0.5, 0.5, 1, tol} {
-				if math.Abs(r-thr) < 1e-9 {
+				if math.Abs(r-thr) < 1e-9 && !(o.exact && r == thr) {
 					res.ambiguous = true
 				}
 			}
@@ -263,7 +286,8 @@ func checkCase(c Case, r *vf.R) error {
 		defer func() { text.DemeritsLine, text.DemeritsFlagged, text.DemeritsFitness = l, fl, fi }()
 		r.Class("non-default-tunables")
 	}
-	o := &lbOracle{items: c.Items, width: c.Width}
+	o := &lbOracle{items: c.Items, width: c.Width, exact: allQuarter(c.Items, c.Width)}
+	r.ClassIf(o.exact, "exact-arithmetic(thresholds decided)")
 	items := c.items()
 	orig := append([]text.Item(nil), items...)
 	var brs []*text.Breakpoint
